@@ -25,7 +25,7 @@ PROPS["C10"] = dict(
     tests=[
         dict(name="model", run="^TestQueueModel$",
              quick=dict(shards=8, checks=12000, timeout=900),
-             thorough=dict(shards=16, checks=400000, timeout=1800)),
+             thorough=dict(shards=16, checks=60000, timeout=3000)),
         dict(name="conc", run="^TestQueueConcurrent$", quick=dict(shards=2, checks=150, timeout=600), thorough=dict(shards=4, checks=6000, timeout=1800)),
         dict(name="conc-race", run="^TestQueueConcurrent$", race=True, quick=dict(shards=2, checks=40, timeout=900), thorough=dict(shards=4, checks=1500, timeout=1800)),
     ],
